@@ -5,6 +5,7 @@ import (
 	"math"
 	"os"
 	"runtime"
+	"strings"
 	"time"
 
 	"github.com/simpleiot/simpleiot/client"
@@ -18,7 +19,7 @@ func init() { Registry["C05"] = runC05 }
 func runC05(tier string, _ []string) int {
 	c := vlib.NewCtx("C05", tier, "exploration")
 	vlib.SetPortBlock(5)
-	c.SetRule("per case a fresh instance with a random graph (C03/C06 generators), then PRNG requests of the classes that must be refused (tombstone on the root; self edge; new edge closing a cycle through live or deleted edges, sent raw and through client.MoveNode / client.MirrorNode; first edge without nodeType; NaN at any position of a node or edge batch, quiet and signalling, both signs) mixed with legal look-alikes that must be accepted (mirror to a non-ancestor, tombstone 0 on the root, +-Inf) and open-status requests (undecodable payloads, root tombstone 2). Monitor: reply of each request; full dump (placements, points, edge points, hashes) before/after every request answered with an error must be identical; an up.> tap drained at the reply barrier must be empty; a follow-up acknowledged write to an unrelated node must be answered. distinct = (request class, graph size bucket, outcome) Finally 1500 refusals (cycles, NaN, missing node type, root tombstone, self edge) on one instance: the process must hold as many file descriptors and goroutines afterwards as before.")
+	c.SetRule("per case a fresh instance with a random graph (C03/C06 generators), then PRNG requests of the classes that must be refused (tombstone on the root; self edge; new edge closing a cycle through live or deleted edges, sent raw and through client.MoveNode / client.MirrorNode; first edge without nodeType; NaN at any position of a node or edge batch, quiet and signalling, both signs) mixed with legal look-alikes that must be accepted (mirror to a non-ancestor, tombstone 0 on the root, +-Inf) and open-status requests (undecodable payloads, root tombstone 2, a request of the bus's maximum payload size - or up to 13 bytes less - made of copies of one identity without time stamps). Monitor: reply of each request; full dump (placements, points, edge points, hashes) before/after every request answered with an error must be identical; an up.> tap drained at the reply barrier must be empty; a follow-up acknowledged write to an unrelated node must be answered. distinct = (request class, graph size bucket, outcome) Finally 1500 refusals (cycles, NaN, missing node type, root tombstone, self edge) on one instance: the process must hold as many file descriptors and goroutines afterwards as before.")
 	c.Assume("a stack overflow / process death caused by a cycle is reported by the check wrapper as a violation (process-death)")
 	nGraphs := c.N(40, 400)
 	perGraph := c.N(32, 48)
@@ -75,6 +76,9 @@ func runC05(tier string, _ []string) int {
 			class := classes[(k+i)%len(classes)]
 			if k == perGraph-1 && i%3 == 0 {
 				class = "cycle-through-root" // changes what is above the root: last request of the case
+			}
+			if k == perGraph-1 && i%3 == 1 {
+				class = "open-payload-limit" // the model cannot follow it (the store stamps the points): last request of the case
 			}
 			var subject string
 			var pts data.Points
@@ -358,6 +362,35 @@ func runC05(tier string, _ []string) int {
 					ps := d.g.Parents(node, true)
 					parent, edgeWrite = ps[0], true
 				}
+			case "open-payload-limit":
+				// a request whose size is the bus's maximum payload or a few bytes less, made of copies of ONE
+				// identity without time stamps (the store stamps them, so whatever it sends on is larger than what
+				// it received). Whatever the answer is, it must be true: an error only if nothing changed
+				node = d.pickNode()
+				maxP := int(nc.MaxPayload())
+				short := []int{0, 1, 2, 3, 5, 8, 13}[r.Intn(7)]
+				filler := strings.Repeat("x", 180+r.Intn(60))
+				onePt := data.Points{{Type: "blob", Key: "dup", Text: "000000" + filler, Origin: "u"}}
+				one, _ := onePt.ToPb()
+				for n := 0; (n+1)*len(one) < maxP-1000; n++ {
+					pts = append(pts, data.Point{Type: "blob", Key: "dup", Text: fmt.Sprintf("%06d%s", n, filler), Origin: "u"})
+				}
+				for try := 0; try < 8; try++ {
+					b, _ := pts.ToPb()
+					diff := maxP - short - len(b)
+					if diff == 0 {
+						break
+					}
+					last := &pts[len(pts)-1]
+					if diff > 0 {
+						last.Text += strings.Repeat("y", diff)
+					} else if -diff < len(last.Text) {
+						last.Text = last.Text[:len(last.Text)+diff]
+					}
+				}
+				if b, _ := pts.ToPb(); len(b) > maxP {
+					pts = pts[:len(pts)-1]
+				}
 			case "open-root-tombstone2":
 				node, parent, edgeWrite = in.RootID, "root", true
 				pts = data.Points{{Type: data.PointTypeTombstone, Time: d.now(), Value: 2}}
@@ -368,6 +401,10 @@ func runC05(tier string, _ []string) int {
 				subject = vlib.NodeSubj(node)
 			}
 			wit := map[string]any{"case": i, "seed": c.Seed, "class": class, "subject": subject, "points": witnessPoints(pts), "raw": raw, "ops": d.Log, "edges": d.g.EdgeKeys()}
+			if class == "open-payload-limit" {
+				b, _ := pts.ToPb()
+				wit["points"] = fmt.Sprintf("%d copies of (blob, dup) without time stamps, %d bytes encoded, the bus allows %d", len(pts), len(b), nc.MaxPayload())
+			}
 			before, err := vlib.Walk(nc)
 			if err != nil {
 				c.Inconclusive(fmt.Sprint("walk: ", err))
@@ -426,6 +463,9 @@ func runC05(tier string, _ []string) int {
 					return
 				}
 				c.Count("refused_checked", 1)
+			} else if class == "open-payload-limit" {
+				modelUnsure = true
+				c.Count("requests_at_the_payload_limit_accepted", 1)
 			} else if raw == nil {
 				if edgeWrite {
 					d.g.ApplyEdgePoints(node, parent, pts)
